@@ -334,7 +334,7 @@ def work(chunk):
     if again != pristine:
         raise RuntimeError("harness nondeterminism: pristine probe observations differ between two runs")
     for item in chunk:
-        if len(item) == 2:
+        if not isinstance(item[0], tuple):
             check_scenario(drv, pristine, item, acc)
         else:
             check_scenario(drv, pristine, item[0], acc, second=item[1])
